@@ -12,6 +12,8 @@ import gc, itertools
 from harness.core import Prop
 
 EXC = ['err', 'fail', 'skip']
+UNCLAIMED = ['ki', 'exit']                                  # KeyboardInterrupt, SystemExit
+REAL_UNIT = 0.04                                            # seconds per time unit in the real-reactor scenarios
 
 
 class Sink:
@@ -100,7 +102,7 @@ class C14(Prop):
         try:
             return self._run(inp, pub, markers)
         except BaseException as e:
-            if isinstance(e, KeyboardInterrupt):
+            if isinstance(e, KeyboardInterrupt) and not getattr(e, 'verif_generated', False):
                 raise
             return ['raised', type(e).__name__]
         finally:
@@ -118,8 +120,27 @@ class C14(Prop):
         from testtools.twistedsupport import (AsynchronousDeferredRunTest, AsynchronousDeferredRunTestForBrokenTwisted,
                                               flush_logged_errors)
         from harness.vreactor import VirtualReactor
-        T, stops, broken, suppress, store, n_obs, su, bo, td = inp
-        r = VirtualReactor()
+        T, stops, broken, suppress, store, n_obs, su, bo, td = inp[:9]
+        real = len(inp) > 9 and inp[9] == 'real'
+        if real:
+            # the REAL Twisted reactor; delays in units of REAL_UNIT seconds; observed times are snapped down to the nominal
+            # instants of the program (events are at least 2 units apart, lateness of up to 2 units is tolerated)
+            from twisted.internet import reactor as r
+            if r.running or r.getDelayedCalls():
+                return ['real-reactor-not-clean']
+            scale = REAL_UNIT
+            instants = self._instants(inp)
+            t0 = r.seconds()
+
+            def now():
+                x = (r.seconds() - t0) / scale + 0.3
+                return max(i for i in instants if i <= x)
+        else:
+            r = VirtualReactor()
+            scale = 1
+
+            def now():
+                return int(r.seconds())
         for i in range(n_obs):
             m = (lambda i: (lambda event: None))(i)
             markers.append(m)
@@ -136,9 +157,14 @@ class C14(Prop):
             counts['scheduled'] += 1
             return call
 
+        def register(case, cleanups):
+            for c in cleanups:
+                case.addCleanup(do, case, ['cleanup', next(numbering)], c)
+
         def do(case, name, stage):
-            sides, beh = stage
-            slog.append([name, int(r.seconds()), len(pub._observers)])
+            cleanups, sides, beh = stage
+            register(case, cleanups)
+            slog.append([name, now(), len(pub._observers)])
             for s in sides:
                 if s == 'logerr':
                     log.err(ZeroDivisionError('logged'))
@@ -149,7 +175,7 @@ class C14(Prop):
                 elif s == 'expect':
                     case.expectThat(1, Equals(2))
                 else:
-                    r.callLater(s[1], mine())
+                    r.callLater(s[1] * scale, mine())
             if beh == 'ret':
                 return None
             if beh == 'never':
@@ -158,48 +184,48 @@ class C14(Prop):
                 raise self._exc(case, beh[1], name)
             d = defer.Deferred()
             if beh[0] == 'fire':
-                r.callLater(beh[1], d.callback, None)
+                r.callLater(beh[1] * scale, d.callback, None)
             else:
-                r.callLater(beh[1], d.errback, self._exc(case, beh[2], name))
+                r.callLater(beh[1] * scale, d.errback, self._exc(case, beh[2], name))
             return d
-
-        def register(case, cleanups):
-            for c in cleanups:
-                case.addCleanup(do, case, ['cleanup', next(numbering)], c)
 
         cls = AsynchronousDeferredRunTestForBrokenTwisted if broken else AsynchronousDeferredRunTest
 
         class T_(testtools.TestCase):
-            run_tests_with = cls.make_factory(reactor=r, timeout=T, suppress_twisted_logging=suppress, store_twisted_logs=store)
+            run_tests_with = cls.make_factory(reactor=r, timeout=T * scale, suppress_twisted_logging=suppress,
+                                              store_twisted_logs=store)
 
             def setUp(self):
                 super().setUp()
-                register(self, su[0])
-                return do(self, 'setUp', su[1])
+                return do(self, 'setUp', su)
 
             def test(self):
-                register(self, bo[0])
-                return do(self, 'body', bo[1])
+                return do(self, 'body', bo)
 
             def tearDown(self):
-                register(self, td[0])
                 try:
-                    return do(self, 'tearDown', td[1])
+                    return do(self, 'tearDown', td)
                 finally:
                     super().tearDown()
 
         for s in stops:
-            r.callLater(s, mine(lambda: r.stop()))
+            r.callLater(s * scale, mine(lambda: r.stop()))
         sink = Sink()
         raised = False
         try:
             T_('test').run(sink)
-        except Exception:
-            raised = True
+        except BaseException as e:
+            if isinstance(e, Exception) or getattr(e, 'verif_generated', False):
+                raised = True
+            else:
+                raise
         gc.collect(1)
         trace = [sink.ev, sink.stopped, raised, slog, counts['scheduled'] - counts['ran'], len(r.getDelayedCalls()),
-                 list(pub._observers) == markers, r.real_stops, int(r.seconds())]
-        if r.errors:
+                 list(pub._observers) == markers, 0 if real else r.real_stops, now()]
+        if real:
+            for dc in r.getDelayedCalls():          # leave the process clean whatever happened
+                dc.cancel()
+        elif r.errors:
             trace.append(['reactor-errors'] + [type(e).__name__ for e in r.errors])
         return trace
 
@@ -209,10 +235,60 @@ class C14(Prop):
             return ValueError(str(name))
         if k == 'fail':
             return case.failureException(str(name))
-        return unittest.SkipTest(str(name))
+        if k == 'skip':
+            return unittest.SkipTest(str(name))
+        e = KeyboardInterrupt() if k == 'ki' else SystemExit(3)
+        e.verif_generated = True
+        return e
+
+    def _instants(self, inp):
+        """the nominal instants at which something can happen in the program (closure of the delays under addition)"""
+        T, stops = inp[0], inp[1]
+        delays = set()
+        for st in self._stages(inp):
+            if isinstance(st[2], list) and st[2][0] in ('fire', 'faild'):
+                delays.add(st[2][1])
+            delays.update(s[1] for s in st[1] if isinstance(s, list))
+        horizon = T + max(delays | {0}) + max(stops + [0])
+        inst = {0, T} | set(stops)
+        grew = True
+        while grew:
+            new = {a + d for a in inst for d in delays if a + d <= horizon} - inst
+            grew = bool(new)
+            inst |= new
+        return sorted(inst)
+
+    # ----- scenarios on the real reactor (events at least 2 units apart)
+    @staticmethod
+    def _st(beh, sides=(), cleanups=()):
+        return [list(cleanups), list(sides), beh]
+
+    def real_inputs(self, quick_only):
+        st = self._st
+        scen = [
+            ('passing-async-test', True, [10, [], False, True, True, 1, st(['fire', 2]), st(['fire', 2]), st('ret')]),
+            ('failing-deferred', True, [10, [], False, True, True, 0, st('ret'), st(['faild', 2, 'fail']), st('ret')]),
+            ('timeout', True, [3, [], False, True, True, 0, st('ret'), st('never'), st('ret', cleanups=[st('ret')])]),
+            ('unclean-reactor', True, [6, [], False, True, True, 0, st('ret'), st('ret', sides=[['junk', 8]]), st('ret')]),
+            ('logged-error', True, [6, [], False, False, True, 2, st('ret'), st('ret', sides=['logerr']), st('ret')]),
+            ('async-cleanups-lifo', False, [12, [], False, True, True, 0,
+                                           st('ret', cleanups=[st(['fire', 2]), st(['fire', 2])]), st(['fire', 2]), st('ret')]),
+            ('broken-twisted-variant', False, [10, [], True, True, False, 0, st('ret'), st(['fire', 2], sides=[['junk', 0]]), st('ret')]),
+            ('interrupted', False, [10, [2], False, True, True, 0, st('ret'), st(['fire', 6]), st('ret', cleanups=[st('ret')])]),
+            ('nested-cleanups', False, [12, [], False, True, True, 0,
+                                       st('ret', cleanups=[st('ret'), st(['fire', 2], cleanups=[st(['fire', 2]), st('ret')])]),
+                                       st('ret'), st('ret')]),
+            ('keyboard-interrupt-in-test', False, [10, [], False, True, True, 0, st('ret', cleanups=[st(['fire', 2])]),
+                                                  st(['raise', 'ki']), st('ret')]),
+            ('dropped-failure', False, [6, [], False, True, True, 0, st('ret'), st(['fire', 2], sides=['dropfailed']), st('ret')]),
+        ]
+        return [inp + ['real'] for _, quick, inp in scen if quick or not quick_only]
+
+    def corpus(self):
+        return Prop.corpus(self) + self.real_inputs(True)
 
     # ----- generators
-    def gen_stage(self, rng, clean, T):
+    def gen_stage(self, rng, clean, T, depth=0):
         sides = []
         for _ in range(rng.choice([0, 0, 0, 1] if clean else [0, 1, 1, 2])):
             k = rng.random()
@@ -230,21 +306,34 @@ class C14(Prop):
                 sides.append('expect')
         k = rng.random()
         delay = rng.choice([0, 0, 1, 1, 2, 3, 4])
+        exc = lambda: rng.choice(EXC + EXC + UNCLAIMED)
         if clean:
-            beh = 'ret' if k < 0.45 else ['fire', delay] if k < 0.93 else ['raise', rng.choice(EXC)] if k < 0.96 else \
-                ['faild', delay, rng.choice(EXC)] if k < 0.985 else 'never'
+            beh = 'ret' if k < 0.45 else ['fire', delay] if k < 0.93 else ['raise', exc()] if k < 0.96 else \
+                ['faild', delay, exc()] if k < 0.985 else 'never'
         else:
-            beh = 'ret' if k < 0.3 else ['fire', delay] if k < 0.6 else ['raise', rng.choice(EXC)] if k < 0.75 else \
-                ['faild', delay, rng.choice(EXC)] if k < 0.9 else 'never'
-        return [sides, beh]
+            beh = 'ret' if k < 0.3 else ['fire', delay] if k < 0.6 else ['raise', exc()] if k < 0.75 else \
+                ['faild', delay, exc()] if k < 0.9 else 'never'
+        if depth == 0:
+            n = rng.choice([0, 0, 1, 1, 2])
+        elif depth == 1:
+            n = rng.choice([0, 0, 0, 1, 2])
+        else:
+            n = rng.choice([0, 0, 0, 0, 1]) if depth == 2 else 0
+        return [[self.gen_stage(rng, clean, T, depth + 1) for _ in range(n)], sides, beh]
+
+    def flat(self, st):
+        yield st
+        for c in st[0]:
+            for x in self.flat(c):
+                yield x
 
     def gen(self, rng, tier):
         mode = rng.random()
         clean = mode < 0.7
         T = rng.choice([0, 1, 2, 3, 4, 5, 6, 7, 9])
-        ms = lambda: [[self.gen_stage(rng, clean, T) for _ in range(rng.choice([0, 0, 1, 1, 2]))], self.gen_stage(rng, clean, T)]
-        prog = [ms(), ms(), ms()]
-        total = sum(s[1][1] for m in prog for s in [m[1]] + m[0] if isinstance(s[1], list) and s[1][0] in ('fire', 'faild'))
+        prog = [self.gen_stage(rng, clean, T) for _ in range(3)]
+        stages = [s for m in prog for s in self.flat(m)]
+        total = sum(s[2][1] for s in stages if isinstance(s[2], list) and s[2][0] in ('fire', 'faild'))
         k = rng.random()
         if k < 0.3:
             T = rng.choice([total, total, total + 1, max(total - 1, 0)])     # ties with the timeout
@@ -255,54 +344,70 @@ class C14(Prop):
                  for _ in range(ns)]
         if 0.35 <= mode < 0.7:
             # an otherwise clean program with exactly one flaw
-            stages = [s for m in prog for s in [m[1]] + m[0]]
             st = rng.choice(stages)
-            flaw = rng.choice(['logerr', 'dropfailed', 'expect', 'junk', 'raise', 'faild', 'never', 'stop', 'logerr-flush-logerr'])
+            flaw = rng.choice(['logerr', 'dropfailed', 'expect', 'junk', 'raise', 'faild', 'never', 'stop', 'logerr-flush-logerr',
+                               'unclaimed', 'unclaimed'])
             if flaw in ('logerr', 'dropfailed', 'expect'):
-                st[0].append(flaw)
+                st[1].append(flaw)
             elif flaw == 'logerr-flush-logerr':
-                st[0].extend(['logerr', 'flush', 'logerr'])
+                st[1].extend(['logerr', 'flush', 'logerr'])
             elif flaw == 'junk':
-                st[0].append(['junk', rng.choice([total + 1, T, T + 1, 9])])
+                st[1].append(['junk', rng.choice([total + 1, T, T + 1, 9])])
             elif flaw == 'raise':
-                st[1] = ['raise', rng.choice(EXC)]
+                st[2] = ['raise', rng.choice(EXC)]
+            elif flaw == 'unclaimed':
+                st[2] = rng.choice([['raise', rng.choice(UNCLAIMED)], ['faild', rng.choice([0, 1, 2]), rng.choice(UNCLAIMED)]])
             elif flaw == 'faild':
-                st[1] = ['faild', rng.choice([0, 1, 2]), rng.choice(EXC)]
+                st[2] = ['faild', rng.choice([0, 1, 2]), rng.choice(EXC)]
             elif flaw == 'never':
-                st[1] = 'never'
+                st[2] = 'never'
             else:
                 stops = stops + [rng.choice([0, max(total - 1, 0), total, total + 1])]
         return [T, stops, rng.random() < 0.3, rng.random() < 0.7, rng.random() < 0.7, rng.choice([0, 1, 2])] + prog
 
     BEHS = ['ret', ['raise', 'err'], ['raise', 'skip'], ['fire', 2], ['fire', 0], ['faild', 2, 'err'], 'never']
+    BEHS2 = ['ret', ['raise', 'ki'], ['raise', 'err'], ['fire', 2], ['faild', 2, 'exit']]
 
     def enumerate(self, tier):
+        for inp in self.real_inputs(False):
+            yield inp
+        st = self._st
         for a, b, c in itertools.product(self.BEHS, repeat=3):
             for cl in [None] + self.BEHS:
                 for T in (1, 4, 9):
-                    su = [[[[], cl]] if cl is not None else [], [[], a]]
-                    yield [T, [], False, True, True, 0, su, [[], [[], b]], [[], [[], c]]]
+                    yield [T, [], False, True, True, 0, st(a, cleanups=[st(cl)] if cl is not None else []), st(b), st(c)]
+        # unclaimed exceptions and cleanups registered by cleanups
+        for a, b, c1, c2, c3 in itertools.product(self.BEHS2, repeat=5):
+            for T in (3, 9):
+                yield [T, [], False, True, True, 0, st(a, cleanups=[st(c1), st(c2, cleanups=[st(c3)])]), st(b), st('ret')]
 
     # ----- measures
     def _stages(self, inp):
-        return [s for m in inp[6:9] for s in [m[1]] + m[0]]
+        return [s for m in inp[6:9] for s in self.flat(m)]
+
+    def depth(self, st):
+        return 1 + max([self.depth(c) for c in st[0]] + [0])
 
     def nontrivial(self, inp, trace):
-        return any(s[0] or (isinstance(s[1], list) and s[1][0] in ('fire', 'faild')) or s[1] == 'never' for s in self._stages(inp))
+        return any(s[1] or (isinstance(s[2], list) and s[2][0] in ('fire', 'faild')) or s[2] == 'never' for s in self._stages(inp))
 
     def features(self, inp, trace):
         T, stops, broken, suppress, store, n_obs = inp[:6]
-        f = ['variant:' + ('broken' if broken else 'plain'), 'suppress=%s' % suppress, 'store=%s' % store, 'observers=%d' % n_obs,
-             'stops=%d' % len(stops), 'cleanups=%d' % min(sum(len(m[0]) for m in inp[6:9]), 4)]
-        for s in self._stages(inp):
-            f.append('beh:' + (s[1] if isinstance(s[1], str) else s[1][0] + ('-' + s[1][-1] if s[1][0] in ('raise', 'faild') else '')))
-            for side in s[0]:
+        stages = self._stages(inp)
+        f = ['reactor:' + ('real' if len(inp) > 9 else 'virtual'), 'variant:' + ('broken' if broken else 'plain'),
+             'suppress=%s' % suppress, 'store=%s' % store, 'observers=%d' % n_obs, 'stops=%d' % len(stops),
+             'cleanups=%d' % min(len(stages) - 3, 6), 'cleanup-nesting=%d' % (max(self.depth(m) for m in inp[6:9]) - 1)]
+        for s in stages:
+            f.append('beh:' + (s[2] if isinstance(s[2], str) else s[2][0] + ('-' + s[2][-1] if s[2][0] in ('raise', 'faild') else '')))
+            for side in s[1]:
                 f.append('side:' + (side if isinstance(side, str) else side[0]))
         if not isinstance(trace, list) or len(trace) < 9 or trace[0] == 'raised':
             return f + ['harness-raised']
         ev, stopped, raised, slog = trace[:4]
         f.append('outcome:' + '+'.join(e for e in ev if e not in ('startTest', 'stopTest')))
-        f.append('stages-run=%d' % min(len(slog), 6))
+        f.append('stages-run=%d' % min(len(slog), 8))
+        if raised:
+            f.append('run-raised')
         if stopped:
             f.append('interrupted')
         if slog:
@@ -318,36 +423,34 @@ class C14(Prop):
         return f
 
     def shrink(self, inp):
-        T, stops, broken, suppress, store, n_obs, su, bo, td = inp
+        tail = inp[9:]
+        T, stops = inp[0], inp[1]
         head = inp[:6]
         for i in range(len(stops)):
             yield [T, stops[:i] + stops[i + 1:]] + inp[2:]
-        if broken:
+        if inp[2]:
             yield [T, stops, False] + inp[3:]
-        if n_obs:
+        if inp[5]:
             yield inp[:5] + [0] + inp[6:]
         if T > 0:
             yield [T - 1] + inp[1:]
-        ms = [su, bo, td]
+        ms = inp[6:9]
         for i, m in enumerate(ms):
-            def put(nm):
-                return head + ms[:i] + [nm] + ms[i + 1:]
-            for j in range(len(m[0])):
-                yield put([m[0][:j] + m[0][j + 1:], m[1]])
-            for cand in self.shrink_stage(m[1]):
-                yield put([m[0], cand])
-            for j, c in enumerate(m[0]):
-                for cand in self.shrink_stage(c):
-                    yield put([m[0][:j] + [cand] + m[0][j + 1:], m[1]])
+            for cand in self.shrink_stage(m):
+                yield head + ms[:i] + [cand] + ms[i + 1:] + tail
 
     def shrink_stage(self, st):
-        sides, beh = st
+        cleanups, sides, beh = st
+        for j in range(len(cleanups)):
+            yield [cleanups[:j] + cleanups[j + 1:], sides, beh]
+            for cand in self.shrink_stage(cleanups[j]):
+                yield [cleanups[:j] + [cand] + cleanups[j + 1:], sides, beh]
         for j in range(len(sides)):
-            yield [sides[:j] + sides[j + 1:], beh]
+            yield [cleanups, sides[:j] + sides[j + 1:], beh]
         if beh != 'ret':
-            yield [sides, 'ret']
+            yield [cleanups, sides, 'ret']
         if isinstance(beh, list) and beh[0] in ('fire', 'faild') and beh[1] > 0:
-            yield [sides, [beh[0], beh[1] - 1] + beh[2:]]
+            yield [cleanups, sides, [beh[0], beh[1] - 1] + beh[2:]]
 
 
 PROP = C14()
